@@ -26,3 +26,12 @@ Definition c11_txin := txin.
 Definition c11_txout := txout.
 Definition c11_compact_size_uint := compact_size_uint.
 Definition c11_witness_digest := witness_digest.
+
+(* a SEQUENCE of calls: the pure model mapped over the content of the transaction at the moment of each call
+   (harness op wm_edit: the caller edits the same txins/txouts list objects in place between the calls) *)
+Definition c11_wm_tx_seq (sha256 : bytes -> bytes)
+           (snaps : list (Z * list (bytes * Z * bytes * Z) * list (Z * bytes) * Z * Z * Z * bytes * option Z))
+  : list (result bytes) :=
+  map (fun s => match s with
+                | (ver, ins, outs, lt, idx, amount, script, flag) => c11_wm_tx sha256 ver ins outs lt idx amount script flag
+                end) snaps.
